@@ -268,6 +268,9 @@ def extract_subface():
     fn = T.find_def(tree, "VolumeMesh._Connectivity._compute_cell_adj")
     for n in ast.walk(fn):
         if isinstance(n, ast.If) and isinstance(n.test, ast.Compare) and isinstance(n.test.ops[0], ast.Eq) \
+                and isinstance(n.test.left, ast.Constant) and isinstance(n.test.comparators[0], ast.Call):
+            n = ast.If(ast.Compare(n.test.comparators[0], [ast.Eq()], [n.test.left]), n.body, n.orelse)      # `4 == len(C)`
+        if isinstance(n, ast.If) and isinstance(n.test, ast.Compare) and isinstance(n.test.ops[0], ast.Eq) \
                 and isinstance(n.test.left, ast.Call) and getattr(n.test.left.func, "id", None) == "len" \
                 and isinstance(n.test.comparators[0], ast.Constant):
             k = n.test.comparators[0].value
@@ -277,10 +280,18 @@ def extract_subface():
                         and len(st.iter.args) == 1 and isinstance(st.iter.args[0], ast.Constant):
                     r = st.iter.args[0].value
                     ivar = st.target.id
-                    for a in st.body:
-                        if isinstance(a, ast.Assign) and isinstance(a.targets[0], ast.Name) and a.targets[0].id == "F":
-                            return k, r, _slice_expr(a.value, cvar, ivar)
+                    for a in st.body:      # the first local assigned a sub-list of the cell (whatever its name)
+                        if isinstance(a, ast.Assign) and isinstance(a.targets[0], ast.Name) \
+                                and isinstance(a.value, (ast.BinOp, ast.ListComp, ast.Subscript)):
+                            return k, r, _rename_ci(_slice_expr(a.value, cvar, ivar), cvar, ivar)
     raise TranslateError("`if len(C)==4: for i in range(4): F = C[:i] + C[i+1:]` not found")
+
+
+def _rename_ci(text, cvar, ivar):
+    """the generated definition binds the cell as `C` and the index as `i` whatever the source calls them"""
+    import re
+    text = re.sub(rf"\b{re.escape(cvar)}\b", "C", text) if cvar != "C" else text
+    return re.sub(rf"\b{re.escape(ivar)}\b", "i", text) if ivar != "i" else text
 
 
 def _slice_expr(node, cvar, ivar):
